@@ -121,6 +121,10 @@ func cacheExec(c *Ctx, op string) {
 		fsx = append(fsx, Entry{Name: fmt.Sprintf("suid%d", i), Kind: 'f', Perms: 04755, Uid: 4000 + uint32(i), Gid: 4000, Sec: 1e9, Content: []byte{byte(i)}})
 		// … and one with the setgid bit alone (a chown clears it on a non-directory: it has to be set again afterwards)
 		fsx = append(fsx, Entry{Name: fmt.Sprintf("sgid%d", i), Kind: 'f', Perms: 02755, Uid: 4000 + uint32(i), Gid: 4000, Sec: 1e9, Content: []byte{byte(i), 1}})
+		// … and the `su root:wheel` shapes: setuid with the unpacker's own uid and a foreign gid, setgid with its own gid and
+		// a foreign uid (any chown clears both bits, whichever id it changed)
+		fsx = append(fsx, Entry{Name: fmt.Sprintf("su%d", i), Kind: 'f', Perms: 04755, Uid: uint32(os.Getuid()), Gid: 50, Sec: 1e9, Content: []byte{byte(i), 2}})
+		fsx = append(fsx, Entry{Name: fmt.Sprintf("wall%d", i), Kind: 'f', Perms: 02755, Uid: 60, Gid: uint32(os.Getgid()), Sec: 1e9, Content: []byte{byte(i), 3}})
 		src := filepath.Join(base, fmt.Sprintf("src%d", i))
 		if err := Materialize(fsx, src, nil); err != nil {
 			c.EmitR(op, "skip", "skip")
